@@ -39,6 +39,7 @@ type Obligation struct {
 	rawSMT      string
 	noSplit     bool
 	skipSolve   bool
+	lowEffort   bool
 	GuardCover  string
 }
 
